@@ -190,6 +190,8 @@ int16_t COTmrDelete(CO_TMR *tmr, int16_t actId)
     CO_TMR_ACTION *act;
     CO_TMR_ACTION *prev;
     CO_TMR_ACTION *del    = 0;
+    CO_TMR_TIME   *tn;
+    uint8_t        elapsed = 0;
     int16_t        result = -1;
 
     if ( (actId < 0) ||
@@ -228,7 +230,8 @@ int16_t COTmrDelete(CO_TMR *tmr, int16_t actId)
 
     /* not found: search in elapsed timer list */
     if (del == 0) {
-        tx = tmr->Elapsed;
+        elapsed = 1;
+        tx      = tmr->Elapsed;
         while ((tx != 0) && (del == 0)) {
             act = tx->Action;
             if (act->Id == (uint16_t)actId) {
@@ -266,7 +269,23 @@ int16_t COTmrDelete(CO_TMR *tmr, int16_t actId)
         if (tx != 0) {
             if (tx->Action == (CO_TMR_ACTION*)0) {
                 tx->ActionEnd = 0;
-                COTmrRemove(tmr, tx);
+                if (elapsed == 0) {
+                    COTmrRemove(tmr, tx);
+                } else {
+                    /* emptied event is in the elapsed list: unlink it there */
+                    if (tmr->Elapsed == tx) {
+                        tmr->Elapsed = tx->Next;
+                    } else {
+                        tn = tmr->Elapsed;
+                        while (tn->Next != tx) {
+                            tn = tn->Next;
+                        }
+                        tn->Next = tx->Next;
+                    }
+                    tx->Delta = 0;
+                    tx->Next  = tmr->Free;
+                    tmr->Free = tx;
+                }
             }
             result = 0;
         }
